@@ -51,7 +51,7 @@ theorem claims_safe : Holds good := by
   constructor
   intro persisted sched sp hr
   have hi : Inv true sp := LTS.inv_run (step good) (Inv true)
-    (fun s a s' hi hs => inv_step good true rfl rfl (fun _ => ⟨rfl, rfl, rfl⟩) s a s' (fun _ => ⟨rfl, rfl⟩) hi hs)
+    (fun s a s' hi hs => inv_step good true rfl rfl rfl (fun _ => ⟨rfl, rfl, rfl⟩) s a s' (fun _ => ⟨rfl, rfl⟩) hi hs)
     (init persisted) sched sp (inv_init true persisted) hr
   exact safe_of_inv true sp hi rfl
 
@@ -64,9 +64,17 @@ theorem claims_disjoint (persisted : Bool) (sched : List Act) (sp : St × Bool)
 /-- Non-vacuity: two shift claimers and a PatchExpired call in flight around a delete. -/
 example : (run good (init false)
     [.seed 1 1 (-30), .seed 2 1 (-20), .seed 3 2 (-10), .seed 4 1 (-5), .snapshot 1 1, .setStatus 2 2,
-     .pselect 3 1 false, .shift 1 5 (some 1), .delete 3, .ppatch 3 1 4 5000, .preindex 3, .shift 2 5 none]).map
+     .pselect 3 1 false, .shift 1 5 (some 1), .shiftDel 1 4, .delete 3, .ppatch 3 1 4 5000, .preindex 3, .shift 2 5 none,
+     .shiftDel 2 2]).map
     (fun sp => (sp.1.claimed.map (·.key), sp.1.index, sp.1.batches.map (·.got), sp.1.deleted)) =
     some ([4, 2], [1], [[1], [4], [2]], [3]) := by decide
+
+/-- Non-vacuity of the re-validating delete step: record 1's expiry is moved to the future between the selection pass
+    and its delete step — it is not handed out and goes back into the index; record 2 is claimed. -/
+example : (run good (init false)
+    [.seed 1 1 (-10), .seed 2 1 (-5), .shift 1 5 none, .expWrite 1 5000, .shiftDel 1 1, .shiftDel 1 2]).map
+    (fun sp => (sp.1.claimed.map (·.key), sp.1.index, (sp.1.recs 1).present, (sp.1.recs 2).present)) =
+    some ([2], [1], true, false) := by decide
 
 /-! ### the `_partial` statement
 
@@ -82,10 +90,10 @@ structure SafeStructural (sp : St × Bool) : Prop where
   noResurrection : ∀ k ∈ sp.1.deleted, (sp.1.recs k).present = false
 
 def HoldsPartial (c : Cfg) : Prop :=
-  c.selectAtomic = true → c.counterLe = false →
+  c.selectAtomic = true → c.counterLe = false → c.deleteRevalidates = true →
   ∀ persisted sched sp, (∀ a ∈ sched, a.isTail = false) → run c (init persisted) sched = some sp → SafeStructural sp
 
-theorem inv_run_noTail (c : Cfg) (hsa : c.selectAtomic = true) (hle : c.counterLe = false)
+theorem inv_run_noTail (c : Cfg) (hsa : c.selectAtomic = true) (hle : c.counterLe = false) (hdr : c.deleteRevalidates = true)
     (sched : List Act) (s sp : St × Bool) (hnt : ∀ a ∈ sched, a.isTail = false)
     (h0 : Inv false s) (hr : run c s sched = some sp) : Inv false sp := by
   induction sched generalizing s with
@@ -98,11 +106,11 @@ theorem inv_run_noTail (c : Cfg) (hsa : c.selectAtomic = true) (hle : c.counterL
       simp only [hs] at hr
       have ha : a.isTail = false := hnt a (by simp)
       exact ih s1 (fun b hb => hnt b (by simp [hb]))
-        (inv_step c false hsa hle (fun h => by simp at h) s a s1 (fun h => by rw [ha] at h; simp at h) h0 hs) hr
+        (inv_step c false hsa hle hdr (fun h => by simp at h) s a s1 (fun h => by rw [ha] at h; simp at h) h0 hs) hr
 
 theorem holds_partial (c : Cfg) : HoldsPartial c := by
-  intro hsa hle persisted sched sp hnt hr
-  have h := inv_run_noTail c hsa hle sched (init persisted) sp hnt (inv_init false persisted) hr
+  intro hsa hle hdr persisted sched sp hnt hr
+  have h := inv_run_noTail c hsa hle hdr sched (init persisted) sp hnt (inv_init false persisted) hr
   refine ⟨h.once, ?_, h.bat, h.live, fun k hk => (h.dead k hk).2⟩
   intro cl hcl hin
   have := h.live _ hin
@@ -115,18 +123,18 @@ def wNonAtomic : List Act := [.seed 1 1 (-10), .shiftRead 1 5 none, .shiftRead 2
 
 theorem w_nonatomic (c : Cfg) (h : c.selectAtomic = false) :
     (run c (init false) wNonAtomic).map (fun sp => sp.1.claimed.map (·.key)) = some [1, 1] := by
-  obtain ⟨a, b, c1, d, e, f, g⟩ := c
+  obtain ⟨a, b, c1, d, e, f, g, r⟩ := c
   simp at h; subst h
-  cases b <;> cases c1 <;> cases d <;> cases e <;> cases f <;> cases g <;> decide
+  cases b <;> cases c1 <;> cases d <;> cases e <;> cases f <;> cases g <;> cases r <;> decide
 
 /-- `counter <= howMany`: a request for one record takes two -/
 def wCounter : List Act := [.seed 1 1 (-20), .seed 2 1 (-10), .shift 1 1 none]
 
 theorem w_counter (c : Cfg) (h1 : c.selectAtomic = true) (h2 : c.counterLe = true) :
     (run c (init false) wCounter).map (fun sp => sp.1.batches.map (fun b => (b.howMany, b.got))) = some [(1, [1, 2])] := by
-  obtain ⟨a, b, c1, d, e, f, g⟩ := c
+  obtain ⟨a, b, c1, d, e, f, g, r⟩ := c
   simp at h1 h2; subst h1; subst h2
-  cases c1 <;> cases d <;> cases e <;> cases f <;> cases g <;> decide
+  cases c1 <;> cases d <;> cases e <;> cases f <;> cases g <;> cases r <;> decide
 
 /-- no `exp != 0` test: a record whose expiry was just cleared (object written, index not yet
     refreshed) is selected as expired -/
@@ -134,29 +142,29 @@ def wExpZero : List Act := [.seed 1 1 (-10), .expWrite 1 0, .pselect 3 5 false]
 
 theorem w_expzero (c : Cfg) (h1 : c.selectAtomic = true) (h2 : c.counterLe = false) (h3 : c.checksExpNonZero = false) :
     (run c (init false) wExpZero).map (fun sp => sp.1.pclaimed.map (fun cl => (cl.key, cl.ok))) = some [(1, false)] := by
-  obtain ⟨a, b, c1, d, e, f, g⟩ := c
+  obtain ⟨a, b, c1, d, e, f, g, r⟩ := c
   simp at h1 h2 h3; subst h1; subst h2; subst h3
-  cases d <;> cases e <;> cases f <;> cases g <;> decide
+  cases d <;> cases e <;> cases f <;> cases g <;> cases r <;> decide
 
 /-- stale candidate set: record 1 leaves the filter between the snapshot and the selection -/
-def wStale : List Act := [.seed 1 1 (-10), .snapshot 1 1, .setStatus 1 2, .shift 1 5 (some 1)]
+def wStale : List Act := [.seed 1 1 (-10), .snapshot 1 1, .setStatus 1 2, .shift 1 5 (some 1), .shiftDel 1 1]
 
 theorem w_stale (c : Cfg) (h1 : c.selectAtomic = true) (h2 : c.counterLe = false) (h3 : c.checksExpNonZero = true)
     (h4 : c.rechecksIndexedLeg = false) :
     (run c (init false) wStale).map (fun sp => sp.1.claimed.map (fun cl => (cl.key, cl.ok))) = some [(1, false)] := by
-  obtain ⟨a, b, c1, d, e, f, g⟩ := c
+  obtain ⟨a, b, c1, d, e, f, g, r⟩ := c
   simp at h1 h2 h3 h4; subst h1; subst h2; subst h3; subst h4
-  cases e <;> cases f <;> cases g <;> decide
+  cases e <;> cases f <;> cases g <;> cases r <;> decide
 
 /-- the same schedule shape with an *empty* snapshot: nothing matches `status = 1`, the nil key set
     lets record 1 (status 2) through -/
-def wEmpty : List Act := [.seed 1 2 (-10), .snapshot 1 1, .shift 1 5 (some 1)]
+def wEmpty : List Act := [.seed 1 2 (-10), .snapshot 1 1, .shift 1 5 (some 1), .shiftDel 1 1]
 
-theorem w_empty (e f : Bool) :
+theorem w_empty (e f r : Bool) :
     (run { selectAtomic := true, counterLe := false, checksExpNonZero := true, rechecksIndexedLeg := false,
-           reindexChecksExists := e, patchChecksExists := f, emptyCandMeansAll := true } (init false) wEmpty).map
+           reindexChecksExists := e, patchChecksExists := f, emptyCandMeansAll := true, deleteRevalidates := r } (init false) wEmpty).map
       (fun sp => sp.1.claimed.map (fun cl => (cl.key, cl.ok))) = some [(1, false)] := by
-  cases e <;> cases f <;> decide
+  cases e <;> cases f <;> cases r <;> decide
 
 /-- delete between PatchExpired's selection and its patch: the patch's save re-inserts the record -/
 def wPatch : List Act := [.seed 1 1 (-10), .pselect 3 5 false, .delete 1, .ppatch 3 1 4 5000]
@@ -164,9 +172,9 @@ def wPatch : List Act := [.seed 1 1 (-10), .pselect 3 5 false, .delete 1, .ppatc
 theorem w_patch (c : Cfg) (h1 : c.selectAtomic = true) (h2 : c.counterLe = false) (h3 : c.checksExpNonZero = true)
     (h4 : c.rechecksIndexedLeg = true) (h5 : c.patchChecksExists = false) :
     (run c (init false) wPatch).map (fun sp => (sp.1.deleted, (sp.1.recs 1).present)) = some ([1], true) := by
-  obtain ⟨a, b, c1, d, e, f, g⟩ := c
+  obtain ⟨a, b, c1, d, e, f, g, r⟩ := c
   simp at h1 h2 h3 h4 h5; subst h1; subst h2; subst h3; subst h4; subst h5
-  cases e <;> cases g <;> decide
+  cases e <;> cases g <;> cases r <;> decide
 
 /-- delete between the patches and ReindexExpiration: the deleted record is appended to the index -/
 def wReindex : List Act := [.seed 1 1 (-10), .pselect 3 5 false, .ppatch 3 1 5 (-5), .delete 1, .preindex 3]
@@ -174,9 +182,30 @@ def wReindex : List Act := [.seed 1 1 (-10), .pselect 3 5 false, .ppatch 3 1 5 (
 theorem w_reindex (c : Cfg) (h1 : c.selectAtomic = true) (h2 : c.counterLe = false) (h3 : c.checksExpNonZero = true)
     (h4 : c.rechecksIndexedLeg = true) (h5 : c.patchChecksExists = true) (h6 : c.reindexChecksExists = false) :
     (run c (init false) wReindex).map (fun sp => (sp.1.index, (sp.1.recs 1).present)) = some ([1], false) := by
-  obtain ⟨a, b, c1, d, e, f, g⟩ := c
+  obtain ⟨a, b, c1, d, e, f, g, r⟩ := c
   simp at h1 h2 h3 h4 h5 h6; subst h1; subst h2; subst h3; subst h4; subst h5; subst h6
-  cases g <;> decide
+  cases g <;> cases r <;> decide
+
+/-- the delete step of a shift claim does not look again: record 1 is deleted by somebody else between the
+    selection pass and the claim's delete step, and is handed out all the same -/
+def wShiftDeleted : List Act := [.seed 1 1 (-10), .shift 1 5 none, .delete 1, .shiftDel 1 1]
+
+theorem w_shift_deleted (c : Cfg) (h1 : c.selectAtomic = true) (h7 : c.deleteRevalidates = false) :
+    (run c (init false) wShiftDeleted).map (fun sp => (sp.1.claimed.map (fun cl => (cl.key, cl.ok)), sp.1.deleted)) =
+      some ([(1, false)], [1]) := by
+  obtain ⟨a, b, c1, d, e, f, g, r⟩ := c
+  simp at h1 h7; subst h1; subst h7
+  cases b <;> cases c1 <;> cases d <;> cases e <;> cases f <;> cases g <;> decide
+
+/-- … and a write acknowledged between the two steps is dropped: the copy handed out is the one of the selection pass -/
+def wShiftStaleCopy : List Act := [.seed 1 1 (-10), .shift 1 5 none, .setStatus 1 2, .shiftDel 1 1]
+
+theorem w_shift_stale_copy (c : Cfg) (h1 : c.selectAtomic = true) (h7 : c.deleteRevalidates = false) :
+    (run c (init false) wShiftStaleCopy).map (fun sp => (sp.1.claimed.map (fun cl => (cl.key, cl.ok)), (sp.1.recs 1).present)) =
+      some ([(1, false)], false) := by
+  obtain ⟨a, b, c1, d, e, f, g, r⟩ := c
+  simp at h1 h7; subst h1; subst h7
+  cases b <;> cases c1 <;> cases d <;> cases e <;> cases f <;> cases g <;> decide
 
 /-- from a closed run with an observable that contradicts `Safe` -/
 theorem refute {β : Type} (c : Cfg) (persisted : Bool) (sched : List Act) (obs : St × Bool → β) (v : β)
@@ -195,7 +224,8 @@ def findings (c : Cfg) : List String :=
   (if c.rechecksIndexedLeg then [] else ["C11-stale-candidate-set"]) ++
   (if c.emptyCandMeansAll && !c.rechecksIndexedLeg then ["C11-empty-candidate-set-matches-all"] else []) ++
   (if c.patchChecksExists then [] else ["C11-patch-resurrects-deleted"]) ++
-  (if c.reindexChecksExists then [] else ["C11-reindex-resurrects-deleted"])
+  (if c.reindexChecksExists then [] else ["C11-reindex-resurrects-deleted"]) ++
+  (if c.deleteRevalidates then [] else ["C11-shift-delete-not-revalidated"])
 
 theorem refutes_of_findings (c : Cfg) (h : findings c ≠ []) : ¬ Holds c := by
   by_cases h1 : c.selectAtomic = true
@@ -204,7 +234,18 @@ theorem refutes_of_findings (c : Cfg) (h : findings c ≠ []) : ¬ Holds c := by
       · by_cases h4 : c.rechecksIndexedLeg = true
         · by_cases h5 : c.patchChecksExists = true
           · by_cases h6 : c.reindexChecksExists = true
-            · exfalso; apply h; simp [findings, h1, h2, h3, h4, h5, h6]
+            · by_cases h7 : c.deleteRevalidates = true
+              · exfalso; apply h; simp [findings, h1, h2, h3, h4, h5, h6, h7]
+              · have h7' : c.deleteRevalidates = false := by simpa using h7
+                refine refute c false wShiftDeleted _ _ (w_shift_deleted c h1 h7') ?_
+                intro sp ho hs
+                have ho1 := (Prod.mk.inj ho).1
+                cases hc : sp.1.claimed with
+                | nil => rw [hc] at ho1; simp at ho1
+                | cons x xs =>
+                  rw [hc] at ho1; simp at ho1
+                  have := hs.matching x (by rw [hc]; simp)
+                  rw [ho1.1.2] at this; exact absurd this (by simp)
             · have h6' : c.reindexChecksExists = false := by simpa using h6
               refine refute c false wReindex _ _ (w_reindex c h1 h2 h3 h4 h5 h6') ?_
               intro sp ho hs
@@ -465,6 +506,8 @@ structure Facts where
   reindexChecksExists : Tri
   patchChecksExists : Tri
   emptyCandMeansAll : Tri
+  /-- CloneAndDelete…Treasures: the per-record delete after the selection pass re-validates under the record guard -/
+  shiftDeleteRevalidates : Tri
   /-- lock-order facts: some beacon method waits for a record guard while holding the beacon lock;
       deleteHandler updates the beacons while holding the record guard -/
   guardUnderBeaconLock : Tri
@@ -475,7 +518,7 @@ def cfgOf (f : Facts) : Cfg :=
   { selectAtomic := f.selectUnderLock.isYes, counterLe := f.counterCmp == .le,
     checksExpNonZero := f.checksExpNonZero.isYes, rechecksIndexedLeg := f.rechecksIndexedLeg.isYes,
     reindexChecksExists := f.reindexChecksExists.isYes, patchChecksExists := f.patchChecksExists.isYes,
-    emptyCandMeansAll := !f.emptyCandMeansAll.isNo }
+    emptyCandMeansAll := !f.emptyCandMeansAll.isNo, deleteRevalidates := f.shiftDeleteRevalidates.isYes }
 
 def lockCfgOf (f : Facts) : LockCfg :=
   { waitsUnderLock := !f.guardUnderBeaconLock.isNo, beaconUnderGuard := !f.beaconUnderGuard.isNo }
@@ -494,6 +537,7 @@ def classify (f : Facts) : Verdict :=
   if f.reindexChecksExists = .unknown then .undetermined "patchExpired.reindexChecksExists" else
   if f.patchChecksExists = .unknown then .undetermined "patchExpired.patchChecksExists" else
   if f.emptyCandMeansAll = .unknown then .undetermined "shiftMatching.emptyCandMeansAll" else
+  if f.shiftDeleteRevalidates = .unknown then .undetermined "shift.deleteRevalidates" else
   if f.guardUnderBeaconLock = .unknown then .undetermined "claim.guardUnderBeaconLock" else
   if f.beaconUnderGuard = .unknown then .undetermined "delete.beaconUnderGuard" else
   match findings (cfgOf f) ++ lockFindings (lockCfgOf f) with
@@ -510,6 +554,7 @@ theorem deadlockFree_of_no_findings (c : LockCfg) (h : lockFindings c = []) : De
 
 theorem classify_sound (f : Facts) : (classify f).Sound (HoldsAll f) (HoldsPartial (cfgOf f)) := by
   unfold classify
+  split; · trivial
   split; · trivial
   split; · trivial
   split; · trivial
